@@ -3,6 +3,7 @@
   (About the tree repaired by `fix:` f6d4c4f: before it a parse exception in one host's task
   propagated through asyncio.gather and aborted the whole run.)
 -/
+import Msmart.Lemmas.CodecEqLan
 import Msmart.Model.Discover
 
 set_option linter.unusedSimpArgs false
@@ -193,5 +194,24 @@ theorem discover_total (ds : List Dgram) : ∃ r, discoverRun ds = r := ⟨_, rf
 
 /-! non-vacuity -/
 example : discoverRun [⟨1, false, [1, 2, 3]⟩, ⟨1, false, [0x5A, 0x5A]⟩] = [] := by decide
+
+/-! ### the version test as translated from the source text -/
+
+/-- **C18 about the translated `Discover._get_device_version`** (the XML parser's verdict is an input bit): a datagram that is
+    not XML is classified by its first two bytes, and one that starts with neither marker raises `DiscoverError` - the error
+    the handler isolates - and nothing else. -/
+theorem version_classification_code (data : Bytes) :
+    Generated.Codec.getDeviceVersion false data =
+      (if data.take 2 = [0x5A, 0x5A] then .ok 2 else if data.take 2 = [0x83, 0x70] then .ok 3 else .error .discover) := by
+  rw [CodecEq.getDeviceVersion_eq]
+  unfold getDeviceVersion
+  simp only [Bool.false_eq_true, if_false]
+  split
+  · rfl
+  · split <;> rfl
+
+/-- … and XML (a V1 unit) is version 1 whatever the bytes are -/
+theorem version_xml_code (data : Bytes) : Generated.Codec.getDeviceVersion true data = .ok 1 := by
+  rw [CodecEq.getDeviceVersion_eq]; rfl
 
 end Msmart.Props.C18
